@@ -26,7 +26,7 @@ use cucumber::{
 use futures::{FutureExt as _, Stream, future::LocalBoxFuture};
 
 use super::{
-    Gate, Lab, Reason, Tok, W, callback,
+    Gate, Lab, Reason, Tok, W, callback, eager_check,
     case::{Item, RCase},
     decode_info, decode_reason, gate, step_fn, step_fn2, with_lab,
 };
@@ -344,7 +344,9 @@ fn custom_which(_: &gherkin::Feature, _: Option<&gherkin::Rule>, s: &gherkin::Sc
 
 fn before_hook<'a>(f: &'a gherkin::Feature, r: Option<&'a gherkin::Rule>, s: &'a gherkin::Scenario, w: &'a mut W) -> LocalBoxFuture<'a, ()> {
     let args = format!("{}/{}/{}", f.name, r.map_or("-", |r| r.name.as_str()), s.name);
-    callback(format!("before:{}", s.name), Some(w), None, Some(args)).boxed_local()
+    let key = format!("before:{}", s.name);
+    eager_check(&key, Some(w), None, Some(args.clone()));
+    callback(key, Some(w), None, Some(args)).boxed_local()
 }
 
 fn after_hook<'a>(
@@ -356,7 +358,9 @@ fn after_hook<'a>(
 ) -> LocalBoxFuture<'a, ()> {
     let args = format!("{}/{}/{}", f.name, r.map_or("-", |r| r.name.as_str()), s.name);
     let reason: Reason = decode_reason(ev);
-    callback(format!("after:{}", s.name), w, Some(reason), Some(args)).boxed_local()
+    let key = format!("after:{}", s.name);
+    eager_check(&key, w.as_deref(), Some(reason.clone()), Some(args.clone()));
+    callback(key, w, Some(reason), Some(args)).boxed_local()
 }
 
 pub const AMB_LOC_1: step::Location = step::Location { path: "vlab/amb.rs", line: 11, column: 1 };
@@ -584,10 +588,23 @@ pub fn run_case(case: &RCase, sched: &mut Schedule<'_>) -> RunLog {
             continue;
         }
         wait_started = None;
-        let choice = sched.pick(npend + extra);
-        if choice >= npend {
-            let long = choice == npend + 1;
-            quiescent.push(Quiescent { round, seq, at: Instant::now(), in_flight: in_flight.max(0) as usize, pending_labels: labels, action: if long { "sleep-long".into() } else { "sleep-short".into() }, branching: npend + extra, choice });
+        let raw_choice = sched.pick(npend + extra);
+        // With two or more delayed retries outstanding the short nap is the *first* alternative
+        // (so that simple schedules land between two deadlines); otherwise naps come last.
+        let nap_first = extra > 0 && delayed_outstanding.len() >= 2;
+        let (choice, nap): (usize, Option<bool>) = if nap_first {
+            match raw_choice {
+                0 => (0, Some(false)),
+                c if c == npend + 1 => (0, Some(true)),
+                c => (c - 1, None),
+            }
+        } else if raw_choice >= npend {
+            (0, Some(raw_choice == npend + 1))
+        } else {
+            (raw_choice, None)
+        };
+        if let Some(long) = nap {
+            quiescent.push(Quiescent { round, seq, at: Instant::now(), in_flight: in_flight.max(0) as usize, pending_labels: labels, action: if long { "sleep-long".into() } else { "sleep-short".into() }, branching: npend + extra, choice: raw_choice });
             thread::sleep(if long { max_delay + Duration::from_millis(2) } else { Duration::from_millis(1) });
             sleeps_in_epoch += if long { 6 } else { 1 };
             continue;
@@ -598,7 +615,7 @@ pub fn run_case(case: &RCase, sched: &mut Schedule<'_>) -> RunLog {
             l.activity += 1;
             (p.waker, p.label)
         });
-        quiescent.push(Quiescent { round, seq, at: Instant::now(), in_flight: in_flight.max(0) as usize, pending_labels: labels, action: label, branching: npend + extra, choice });
+        quiescent.push(Quiescent { round, seq, at: Instant::now(), in_flight: in_flight.max(0) as usize, pending_labels: labels, action: label, branching: npend + extra, choice: raw_choice });
         w.wake();
     };
 
